@@ -100,6 +100,10 @@ def generic_simplifier(rec):
                         sp[key] = sp[key][:-1] if cut == "last" else sp[key][1:]
                 sp["ranks"] = (sp["ranks"][:-2] + [1]) if cut == "last" else ([1] + sp["ranks"][2:])
                 out.append(r)
+        if spec.get("int_storage"):
+            r = copy.deepcopy(rec)
+            del r["spec"]["int_storage"]
+            out.append(r)
         if spec.get("dtype") != "f8":
             r = copy.deepcopy(rec)
             r["spec"]["dtype"] = "f8"
